@@ -308,7 +308,7 @@ def check_role_fn(chk, m, fn, role, cfg):
     return n_success
 
 
-def _observer_by_evaluation(m, fn):
+def _observer_by_evaluation(m, fn, want="empty"):
     """Evaluate the observer on every valid ring state of a few small sizes (0 <= readi, writei < buf_len): it must answer
     readi == writei.  Returns (ok, text), or None if the function is outside what can be evaluated."""
     from ..paths import eval_concrete, NoValue
@@ -346,7 +346,8 @@ def _observer_by_evaluation(m, fn):
                 if got is None:
                     return None
                 n += 1
-                if bool(got) != (r_ == w_):
+                expect = (r_ == w_) if want == "empty" else ((w_ + 1) % L == r_)
+                if bool(got) != expect:
                     return False, ("with buf_len %d, readi %d, writei %d the observer answers %s, but the ring is %s: a consumer that "
                                    "polls it %s" % (L, r_, w_, "empty" if got else "not empty", "empty" if r_ == w_ else "not empty",
                                                     "never fetches the bytes that are waiting" if got else "is told there is data when there is none"))
@@ -357,6 +358,14 @@ def check_observer(chk, m, fn, cfg):
     """ringbuf_empty-like: returns readi == writei from two atomic loads."""
     tag = "%s[%s]" % (fn.name, cfg)
     verdict = _observer_by_evaluation(m, fn)
+    if verdict is not None and not verdict[0] and fn.name != "ringbuf_empty":
+        # another query over the two indices (a `full` test, a level): it is not the emptiness observer the property names; what it
+        # must answer is not stated, so it is only required to be a pure function of the indices (it was evaluable) - no verdict
+        full = _observer_by_evaluation(m, fn, want="full")
+        chk.ob("R4.other-observer", tag, True, "%s is a read-only query over the indices, %s" %
+               (fn.name, "true exactly when the ring is full" if full and full[0] else "not the emptiness test; what it answers is not the property's subject"),
+               fn.loc, fn.name)
+        return
     if verdict is not None:
         ok, detail = verdict
         chk.ob("R4.empty-observer", tag, ok, detail, fn.loc, fn.name)
